@@ -73,8 +73,9 @@ class QFSystem(System):
         als = _alphabets(tier)
         for name, al in als.items():
             cfgs.append({"alpha": name, "auto": False, "ops": [], "via_key": False, "depth": None, "cost": 30 * 2 ** len(al)})
-        # through the key interface
+        # through the key interface (a supplied hash function must survive resizes)
         cfgs.append({"alpha": "Awrap", "auto": False, "ops": [], "via_key": True, "depth": None, "cost": 30 * 2**11})
+        cfgs.append({"alpha": "Arun", "auto": True, "ops": ["resize"], "via_key": True, "depth": None, "cost": 60 * 2**9})
         # automatic + manual resize, merge
         cfgs.append({"alpha": "Asplit", "auto": True, "ops": ["resize", "merge"], "via_key": False, "depth": None,
                      "cost": 90 * 2**10})
@@ -238,8 +239,9 @@ class QFSystem(System):
             if not self._allowed_raise(cfg, pre, ev, obs):
                 bad("C04", "qf.unexpected_exception", {"ev": ev, "obs": obs, "model_size": n_pre, "slots": pre.impl.size})
                 return out
-            # an allowed refusal: the history is outside the claim unless nothing changed
-            if canon(pre.impl) != canon(post.impl):
+            # an allowed refusal is a no-op on the set: the state oracles are evaluated against the unchanged
+            # model.  Only a merge that stopped half-way (receiver ran out of space) leaves an unknown set.
+            if ev[0] == "merge" and canon(pre.impl) != canon(post.impl):
                 return out or PRUNE
         f = post.impl
         if ev[0] == "resize" and obs[0] == "ok":
@@ -309,13 +311,14 @@ class QFSystem(System):
                 o = self._others(cfg)[0]
                 call(o.merge, x)  # x is the non-receiver side
 
+            pristine = self.clone(post)  # before any query of this state
             before = self._observe(f)
             ro(f)
             after = self._observe(f)
             if before != after:
                 bad("C19", "qf.queries_do_not_mutate", {"before": repr(before)[:300], "after": repr(after)[:300]})
             if self.cur_depth <= cfg.get("twin_depth", 2):
-                div = twin_divergence(self, cfg, post, lambda q: ro(q.impl), lambda x: self._observe(x.impl))
+                div = twin_divergence(self, cfg, pristine, lambda q: ro(q.impl), lambda x: self._observe(x.impl))
                 if div is not None:
                     bad("C19", "qf.queried_twin_diverges_one_step_later", div)
         return out
